@@ -338,6 +338,14 @@ class BaseSection(base.Sectionable):
             self._parent.remove(self)
             self._parent = None
         elif self._validate_parent(new_parent):
+            if new_parent is self._parent:
+                return
+
+            # Refuse a name clash at the destination before detaching
+            # from the current parent; there is no rollback afterwards.
+            if self.name in new_parent.sections:
+                raise KeyError("Object with the same name already exists! " + str(self))
+
             if self._parent is not None:
                 self._parent.remove(self)
             self._parent = new_parent
